@@ -21,6 +21,8 @@
 (*         "n" valid precommit signature for nil                            *)
 (*         "a" absent                                                       *)
 (*         "f" present but the signature does not verify                    *)
+(*         "r" this slot REPEATS the vote of the first committing validator *)
+(*             (same validator index / address / signature): no new signer  *)
 (* A deposit proof kind (what the submitter sends next to the header):      *)
 (*   "exist"         key path + ics23 EXISTENCE proofs of key -> message    *)
 (*   "exist-badval"  the same proofs, but the message differs               *)
@@ -46,6 +48,7 @@ CONSTANTS Powers,       \* sequence: valset id -> sequence of voting powers
           TableSets,    \* table mode: valset ids whose vote vectors are enumerated
           Pairs,        \* TRUE: also two-header batches (from a reduced header set)
           AbsenceAccepted, \* TRUE: model the empty-key-path branch of the cosmos handler (F9)
+          RepeatCounts, \* TRUE: model heimdall's tally, which takes the validator index from the vote itself
           EmitOn
 
 VARIABLES tracked, hist
@@ -60,7 +63,7 @@ PowersSmall == <<<<1, 1, 1>>, <<1, 2, 3>>>>
 vars == <<tracked, hist>>
 
 V == DOMAIN Powers
-Votes == {"c", "n", "a", "f"}
+Votes == {"c", "n", "a", "f"}          \* table alphabet ("r" appears in the representative vectors only)
 
 RECURSIVE SumSeq(_, _)
 SumSeq(s, i) == IF i > Len(s) THEN 0 ELSE s[i] + SumSeq(s, i + 1)
@@ -71,7 +74,11 @@ TallyFrom(v, votes, i) == IF i > Len(votes) THEN 0
 Tally(v, votes) == TallyFrom(v, votes, 1)
 MoreThanTwoThirds(v, votes) == 3 * Tally(v, votes) > 2 * Total(v)
 (* the code's arithmetic: talliedVotingPower <= total*2/3 rejects (integer division) *)
-CodeQuorum(v, votes) == Tally(v, votes) > (Total(v) * 2) \div 3
+FirstC(votes) == IF \E i \in DOMAIN votes : votes[i] = "c" THEN CHOOSE i \in DOMAIN votes : votes[i] = "c" /\ \A j \in DOMAIN votes : votes[j] = "c" => i <= j ELSE 0
+RepeatPower(v, votes) == IF FirstC(votes) = 0 \/ FirstC(votes) > Len(Powers[v]) THEN 0
+                         ELSE Powers[v][FirstC(votes)] * Cardinality({i \in DOMAIN votes : votes[i] = "r"})
+CodeTally(v, votes) == Tally(v, votes) + (IF RepeatCounts THEN RepeatPower(v, votes) ELSE 0)
+CodeQuorum(v, votes) == CodeTally(v, votes) > (Total(v) * 2) \div 3
 
 (* VerifyCosmosHeader(hdr, info) in the code's order of checks *)
 Verify(hdr, info) ==
@@ -79,7 +86,7 @@ Verify(hdr, info) ==
     /\ hdr.vh = hdr.vs                 \* Header.ValidatorsHash = Hash(Valsets)
     /\ hdr.cm = "this"                 \* commit height and block hash are this header's
     /\ Len(hdr.votes) = Len(Powers[hdr.vs])
-    /\ \A i \in DOMAIN hdr.votes : hdr.votes[i] # "f"
+    /\ \A i \in DOMAIN hdr.votes : hdr.votes[i] # "f" /\ (hdr.votes[i] = "r" => RepeatCounts /\ FirstC(hdr.votes) # 0)
     /\ CodeQuorum(hdr.vs, hdr.votes)
 
 (* SyncBlockHeader: fold over the batch *)
@@ -124,6 +131,8 @@ RepVotes(v) == LET n == Len(Powers[v]) IN
     {[i \in 1..n |-> IF i \in S THEN "c" ELSE "a"] : S \in SUBSET (1..n)}
     \cup {[AllC(v) EXCEPT ![i] = x] : i \in 1..n, x \in {"n", "f"}}
     \cup {[i \in 1..n |-> "n"]}
+    \cup {[i \in 1..n |-> IF i = k THEN "c" ELSE "r"] : k \in 1..n}          \* one signer, repeated in every slot
+    \cup {[i \in 1..n |-> IF i = k THEN "c" ELSE IF i = n + 1 - k THEN "a" ELSE "r"] : k \in 1..n}
 Hdr(h, vs, vh, nv, cm, votes) == [h |-> h, vs |-> vs, vh |-> vh, nv |-> nv, cm |-> cm, votes |-> votes]
 Heights(info) == {x \in {info.h - 1, info.h, info.h + 1, info.h + 2} : x >= 1 /\ x <= MaxH}
 
@@ -201,5 +210,5 @@ PropC30 ==
              /\ (r.ok => DepositAllowed(hdr, kind, tracked))
 HeightMonotone == [][tracked'.h >= tracked.h]_vars
 (* the code's integer arithmetic is exactly "more than two thirds" *)
-QuorumArithmetic == \A v \in V : \A vt \in VoteVectors(v) : CodeQuorum(v, vt) = MoreThanTwoThirds(v, vt)
+QuorumArithmetic == \A v \in V : \A vt \in VoteVectors(v) : (Tally(v, vt) > (Total(v) * 2) \div 3) = MoreThanTwoThirds(v, vt)
 =============================================================================
